@@ -10,6 +10,7 @@ From QSX Require Import Store.Spec Store.Api.
 From QSX Require Import Fac.FTUpdate.
 From QSX Require Import Store.Matrix Store.L2.
 From QSX Require Import IO.LpWrite IO.LpRead IO.MpsWrite IO.LpRoundtrip IO.LpNames.
+From QSX Require Import IO.MpsRead.
 (* one Require line per area may be added below *)
 
 Extraction Language OCaml.
@@ -32,5 +33,6 @@ Extraction "model.ml"
   lib_optimalstatus lib_dualstatus loaded_basis lp_bounds_ok norm_stat spike usolve usolve_t bpost update update_spike struct_ok repr_same_u sparsify norm_line sort_sparse
   l2_step_c l2_load_c l2_copy_c empty_lstore lwf_check wf_check abs col_ents
   write_lp file_bytes read_lp_res split_lines to_nlp write_mps wf_lpb fix_names default_objname
+  read_mps_res mlp_to_nlp
   (* add names below, one line per area *)
   .
